@@ -343,3 +343,5 @@ def run(ck):
     ck.run_rule("C06.R6e", "string escapes: complete valuation over the ASCII escape letters", 129, rule_escapes)
     from ..rules import partial
     ck.run_rule("P1", "'.align 0' and other divisions by program values are guarded", 3, partial.rule_P1)
+    from . import c02
+    ck.run_rule("C02.R1", "announced size == produced length (the fill of .even/.odd/.align is computed from addresses built on these sizes)", 40, c02.rule_R1)
